@@ -503,7 +503,7 @@ static void run_actions(const char *actions)
 static void react(char kind, int id, int band)
 {
 	int k = kind == 'f' ? 0 : kind == 't' ? 1 : kind == 'k' ? 2 : kind == 'e' ? 3 : 4;
-	int n = ++cbseen[k][id][band];
+	int n = (id >= 0 && id < MAXO) ? ++cbseen[k][id][band] : 1;	/* burst timers (ids beyond the reaction table) have no reactions */
 	int i;
 
 	if (++cb_count > cb_limit)
@@ -1050,14 +1050,17 @@ int main(int argc, char **argv)
 				busy |= E[i].exists == 1 && E[i].isreg;
 				busy |= R[i].exists == 1 && R[i].isreg;
 			}
-			for (i = 0; i < MAXTM; i++)
-				busy |= T[i].exists == 1 && iv_timer_registered(T[i].o);
+			/* timers may stay registered across iv_deinit (nothing the library holds refers to them afterwards, and whatever the
+			 * timer store allocated for them must be released by the tear-down): their structs are re-initialised below */
 			if (busy) {
 				logf_("CYCLE-SKIPPED objects still registered\n");
 			} else {
 				ledger("LEDGER-LIVE");
 				iv_deinit();
 				ledger("LEDGER");
+				for (i = 0; i < MAXTM; i++)
+					if (T[i].exists == 1)
+						IV_TIMER_INIT(T[i].o);
 				memset(kint_present, 0, sizeof(kint_present));
 				ktimer_fd = -1;
 				ktimer_armed = 0;
